@@ -117,6 +117,8 @@ func (h *inFlightRequestsHandler) onIncomingFrameReceived(f *frame.Frame) error 
 			h.removeInFlight(streamId)
 			if inFlight.managedStreamId {
 				if err := h.releaseStreamId(streamId); err != nil {
+					// the request is no longer registered: complete it here, nobody else will
+					inFlight.close(err)
 					return err
 				}
 			}
@@ -279,7 +281,10 @@ func (r *inFlightRequest) onFrameReceived(f *frame.Frame) error {
 		}
 		return nil
 	case <-r.ctx.Done():
-		return fmt.Errorf("%v: request closed", r)
+		// the context may have been canceled by a parent: make sure the request is completed
+		err := fmt.Errorf("%v: request closed", r)
+		r.close(err)
+		return err
 	default:
 		err := fmt.Errorf("%v: too many pending incoming frames: %d", r, len(r.incoming))
 		r.close(err)
